@@ -15,14 +15,25 @@ Theorem C05_no_full_pti to_shaft to_elec i : h_any_full i = false ->
   elec_imbalance to_shaft to_elec i == h_e0 i - to_elec (s2 to_shaft i).
 Proof. apply hybrid_no_full_pti. Qed.
 
+(* with a full-PTI step somewhere the passes are electric, shaft, electric, shaft (the last one since fix D-22):
+   the shaft side is exact at every step *)
 Theorem C05_full_pti to_shaft to_elec i : h_any_full i = true ->
-  elec_imbalance to_shaft to_elec i == 0 /\
-  shaft_imbalance to_shaft to_elec i == to_shaft (elec_final to_shaft to_elec i) - s2 to_shaft i.
+  shaft_imbalance to_shaft to_elec i == 0 /\
+  elec_imbalance to_shaft to_elec i == elec_mid to_shaft to_elec i - to_elec (shaft_final to_shaft to_elec i).
 Proof. apply hybrid_full_pti. Qed.
 
-(* a step at which the machine shares the load with the sources (sharing flag 0): exact on both sides *)
+(* in a full-PTI step both sides are exact, the machine carries the whole shaft load and the electrical side
+   supplies that load plus the conversion loss *)
+Theorem C05_full_step to_shaft to_elec i : h_any_full i = true -> h_full i = true -> h_bal i = false ->
+  elec_imbalance to_shaft to_elec i == 0 /\ shaft_imbalance to_shaft to_elec i == 0 /\
+  shaft_final to_shaft to_elec i = h_load i /\ elec_final to_shaft to_elec i = to_elec (h_load i).
+Proof. apply hybrid_full_step. Qed.
+
+(* a step at which the machine shares the load with the sources (sharing flag 0): shaft side exact, electric side
+   within one conversion round trip of its balancing power *)
 Theorem C05_load_sharing_step to_shaft to_elec i : h_any_full i = true -> h_bal i = true -> h_full i = false ->
-  elec_imbalance to_shaft to_elec i == 0 /\ shaft_imbalance to_shaft to_elec i == 0.
+  shaft_imbalance to_shaft to_elec i == 0 /\
+  elec_imbalance to_shaft to_elec i == h_e0 i - to_elec (to_shaft (h_e0 i)).
 Proof. apply hybrid_load_sharing_step. Qed.
 
 Theorem C05_both_within_eps to_shaft to_elec i eps :
@@ -33,9 +44,8 @@ Theorem C05_both_within_eps to_shaft to_elec i eps :
 Proof. apply hybrid_both_within_eps. Qed.
 
 Theorem C05_loss to_shaft to_elec i :
-  (h_any_full i && h_bal i = false -> elec_final to_shaft to_elec i = to_elec (shaft_balanced_with to_shaft i)) /\
-  (h_full i = true -> h_bal i = false -> shaft_balanced_with to_shaft i = h_load i /\ elec_final to_shaft to_elec i = to_elec (h_load i)) /\
-  (h_any_full i = true -> shaft_final to_shaft to_elec i = to_shaft (elec_final to_shaft to_elec i)).
+  elec_final to_shaft to_elec i = to_elec (shaft_balanced_with to_shaft to_elec i) /\
+  (h_full i = true -> h_bal i = false -> shaft_balanced_with to_shaft to_elec i = h_load i /\ elec_final to_shaft to_elec i = to_elec (h_load i)).
 Proof. apply hybrid_loss. Qed.
 
 Example C05_example : (* a machine with 10 % loss either way; PTI step of 200 kW electric; full-PTI step of 900 kW load;
@@ -104,6 +114,7 @@ Proof. vm_compute. repeat split. Qed.
 
 Print Assumptions C05_no_full_pti.
 Print Assumptions C05_full_pti.
+Print Assumptions C05_full_step.
 Print Assumptions C05_load_sharing_step.
 Print Assumptions C05_both_within_eps.
 Print Assumptions C05_loss.
